@@ -199,29 +199,95 @@ Definition receipts_witness : rd :=
         TStart (mkname (str "urn:xmpp:receipts") (str "request")) []; TEnd (mkname (str "urn:xmpp:receipts") (str "request"));
         TEnd (mkname (str "jabber:client") (str "message"))] TmEOF.
 
-Lemma ibb_iq_no_panic e start : no_panic (ibb_iq e start).
-Proof. unfold ibb_iq. destruct start; try reflexivity. destruct (_ && _); reflexivity. Qed.
-
-Lemma ibb_iq_ready e start : e_ready e = true -> safe (ibb_iq e start).
+(* ibb: with agreeing keys a closed listener never stays in the table *)
+Lemma l_step_not_stale full st o : st <> LStale -> l_step true full st o <> LStale.
 Proof.
-  intro H. unfold ibb_iq. destruct start; try apply safe_returns.
+  intro H. destruct o, st; cbn [l_step orb]; try exact H; try discriminate.
+Qed.
+
+Lemma l_fold_not_stale full h : forall st, st <> LStale -> fold_left (l_step true full) h st <> LStale.
+Proof.
+  induction h as [|o h IH]; intros st H; cbn [fold_left]; [exact H|].
+  apply IH. apply l_step_not_stale. exact H.
+Qed.
+
+Lemma l_state_not_stale full h : l_state true full h <> LStale.
+Proof. unfold l_state. apply l_fold_not_stale. discriminate. Qed.
+
+Lemma ibb_iq_no_panic f e start : f_keys_agree f = true -> no_panic (ibb_iq f e start).
+Proof.
+  intro Hk. unfold ibb_iq. destruct start; try reflexivity.
+  destruct (_ && _); [|reflexivity]. rewrite Hk.
+  pose proof (l_state_not_stale (e_full e) (e_hist e)) as Hs.
+  destruct (l_state true (e_full e) (e_hist e)) as [|[|]|]; try reflexivity. congruence.
+Qed.
+
+(* the listener of the session is accepted from (or there is none) *)
+Definition listener_served (f : facts) (e : env) : bool :=
+  match l_state (f_keys_agree f) (e_full e) (e_hist e) with LOpen false => false | _ => true end.
+
+Lemma ibb_iq_served f e start : f_keys_agree f = true -> listener_served f e = true -> safe (ibb_iq f e start).
+Proof.
+  intros Hk Hs. split; [apply ibb_iq_no_panic; exact Hk|].
+  unfold ibb_iq, listener_served in *. destruct start; try reflexivity.
+  destruct (_ && _); [|reflexivity].
+  destruct (l_state (f_keys_agree f) (e_full e) (e_hist e)) as [|[|]|]; try reflexivity. discriminate.
+Qed.
+
+Lemma ibb_iq_blocked f e start : mem CBlocked (ibb_iq f e start) = true -> listener_served f e = false.
+Proof.
+  unfold ibb_iq, listener_served. destruct start; try discriminate.
+  destruct (_ && _); [|discriminate].
+  destruct (l_state (f_keys_agree f) (e_full e) (e_hist e)) as [|[|]|]; try discriminate. reflexivity.
+Qed.
+
+(* the witness of a key mismatch: full local JID, Listen, Close, then <open/> *)
+Definition stale_env : env := mkenv [] true (str "set") true true [ALListen; ALAcceptor; ALClose].
+Definition open_start : token := TStart (mkname (str "http://jabber.org/protocol/ibb") (str "open")) [].
+
+Lemma ibb_key_mismatch_panics f : f_keys_agree f = false -> mem CPanic (ibb_iq f stale_env open_start) = true.
+Proof. destruct f as [k d]. cbn [f_keys_agree]. intros ->. vm_compute. reflexivity. Qed.
+
+(* muc *)
+Lemma muc_presence_no_panic f e : no_panic (muc_presence f e).
+Proof. unfold muc_presence. destruct (m_state (e_hist e)) as [[m sl] p]. destruct (_ && _); reflexivity. Qed.
+
+Lemma muc_presence_select f e : f_depart_select f = true -> safe (muc_presence f e).
+Proof.
+  intro H. unfold muc_presence. destruct (m_state (e_hist e)) as [[m sl] p].
   rewrite H, andb_false_r. apply safe_returns.
 Qed.
 
+Lemma muc_presence_blocked f e : mem CBlocked (muc_presence f e) = true -> f_depart_select f = false.
+Proof.
+  unfold muc_presence. destruct (m_state (e_hist e)) as [[m sl] p].
+  destruct (f_depart_select f); [rewrite andb_false_r; discriminate | reflexivity].
+Qed.
+
+(* the witness of a blocking departure: joined, removed by the room, joined again, removed again *)
+Definition depart_env : env := mkenv [] true (str "unavailable") true true [AMJoin; AMDepart; AMJoin].
+
+Lemma muc_plain_send_parks f : f_depart_select f = false -> mem CBlocked (muc_presence f depart_env) = true.
+Proof. destruct f as [k d]. cbn [f_depart_select]. intros ->. vm_compute. reflexivity. Qed.
+
 (* ---- every component, under the condition its environment must meet ---- *)
 
-Definition comp_cond (c : comp) (e : env) : bool :=
+Definition comp_cond (f : facts) (c : comp) (e : env) : bool :=
   match c with
-  | HHistory | HIbbIQ => e_ready e
+  | HHistory => e_ready e
+  | HIbbIQ => listener_served f e
+  | HMucPres => f_depart_select f
   | _ => true
   end.
 
-Lemma run_comp_safe c e start rs : comp_cond c e = true -> safe (run_comp c e start rs).
+Lemma run_comp_safe f c e start rs :
+  f_keys_agree f = true -> comp_cond f c e = true -> safe (run_comp f c e start rs).
 Proof.
-  intro H. destruct c; cbn [run_comp comp_cond] in *;
+  intros Hk H. destruct c; cbn [run_comp comp_cond] in *;
     first [ apply safe_returns | apply safe_ok
           | apply history_ready_safe; exact H
-          | apply ibb_iq_ready; exact H
+          | apply ibb_iq_served; assumption
+          | apply muc_presence_select; exact H
           | apply receipts_handle_safe
           | apply carbons_handle_safe | apply blocklist_handle_safe | apply unmarshal_iq_safe | apply ping_send_safe
           | apply upload_slot_safe | apply items_pages_safe | apply iter_decoding_safe | apply pubsub_fetch_safe
@@ -229,11 +295,12 @@ Proof.
           | apply carbons_unwrap_safe | apply forward_unwrap_safe ].
 Qed.
 
-(* no component panics, whatever its environment and input *)
-Lemma run_comp_no_panic c e start rs : no_panic (run_comp c e start rs).
+(* no component panics, whatever its environment and input, when the listener
+   table is deleted from under the key it is inserted with *)
+Lemma run_comp_no_panic f c e start rs : f_keys_agree f = true -> no_panic (run_comp f c e start rs).
 Proof.
-  destruct c; cbn [run_comp];
-    first [ apply history_no_panic | apply ibb_iq_no_panic
+  intro Hk. destruct c; cbn [run_comp];
+    first [ apply history_no_panic | apply ibb_iq_no_panic; exact Hk | apply muc_presence_no_panic
           | apply safe_no_panic;
             first [ apply safe_returns | apply safe_ok | apply receipts_handle_safe
                   | apply carbons_handle_safe | apply blocklist_handle_safe | apply unmarshal_iq_safe | apply ping_send_safe
@@ -244,7 +311,7 @@ Qed.
 
 (* ---- Serve ---- *)
 
-Definition inv_cond (i : inv) : bool := comp_cond (i_comp i) (i_env i).
+Definition inv_cond (f : facts) (i : inv) : bool := comp_cond f (i_comp i) (i_env i).
 
 Lemma existsb_false_of_all {A} (f : A -> bool) l : (forall x, In x l -> f x = false) -> existsb f l = false.
 Proof.
@@ -252,38 +319,47 @@ Proof.
   cbn [existsb]. rewrite (H x (or_introl eq_refl)). apply IH. intros y Hy. apply H. right. exact Hy.
 Qed.
 
-Lemma serve_returns script :
-  (forall el i, In el script -> In i el -> inv_cond i = true) ->
-  forall o, In o (serve_may script) -> o = Returned.
+Lemma serve_returns f script :
+  f_keys_agree f = true ->
+  (forall el i, In el script -> In i el -> inv_cond f i = true) ->
+  forall o, In o (serve_may f script) -> o = Returned.
 Proof.
-  induction script as [|el rest IH]; intros Hc o Ho; cbn [serve_may] in Ho.
+  intro Hk. induction script as [|el rest IH]; intros Hc o Ho; cbn [serve_may] in Ho.
   - destruct Ho as [<-|[]]. reflexivity.
-  - assert (Hp : existsb (fun i => mem CPanic (run_inv i)) el = false).
+  - assert (Hp : existsb (fun i => mem CPanic (run_inv f i)) el = false).
     { apply existsb_false_of_all. intros i Hi.
-      apply (run_comp_safe (i_comp i) (i_env i) (i_start i) (i_rds i)). apply (Hc el i (or_introl eq_refl) Hi). }
-    assert (Hb : existsb (fun i => mem CBlocked (run_inv i)) el = false).
+      apply (run_comp_safe f (i_comp i) (i_env i) (i_start i) (i_rds i) Hk). apply (Hc el i (or_introl eq_refl) Hi). }
+    assert (Hb : existsb (fun i => mem CBlocked (run_inv f i)) el = false).
     { apply existsb_false_of_all. intros i Hi.
-      apply (run_comp_safe (i_comp i) (i_env i) (i_start i) (i_rds i)). apply (Hc el i (or_introl eq_refl) Hi). }
+      apply (run_comp_safe f (i_comp i) (i_env i) (i_start i) (i_rds i) Hk). apply (Hc el i (or_introl eq_refl) Hi). }
     rewrite Hp, Hb in Ho. cbn [app] in Ho. destruct Ho as [<-|Ho]; [reflexivity|].
     apply IH; [|exact Ho]. intros el' i Hel Hi. apply (Hc el' i); [right; exact Hel | exact Hi].
 Qed.
 
 (* Serve never panics, whatever the script, the routing and the environments *)
-Lemma serve_never_panics script : ~ In Panicked (serve_may script).
+Lemma serve_never_panics f script : f_keys_agree f = true -> ~ In Panicked (serve_may f script).
 Proof.
-  induction script as [|el rest IH]; cbn [serve_may]; intro H.
+  intro Hk. induction script as [|el rest IH]; cbn [serve_may]; intro H.
   - destruct H as [H|[]]. discriminate.
-  - assert (Hp : existsb (fun i => mem CPanic (run_inv i)) el = false).
-    { apply existsb_false_of_all. intros i _. apply run_comp_no_panic. }
+  - assert (Hp : existsb (fun i => mem CPanic (run_inv f i)) el = false).
+    { apply existsb_false_of_all. intros i _. apply run_comp_no_panic. exact Hk. }
     rewrite Hp in H. cbn [app] in H. apply in_app_or in H. destruct H as [H|H].
     + destruct (existsb _ el); [destruct H as [H|[]]; discriminate | destruct H].
     + destruct H as [H|H]; [discriminate | exact (IH H)].
 Qed.
 
-Lemma serve_wedge_witness :
-  In Wedged (serve_may [[mkinv HHistory (mkenv [str "q1"] false [] true) (TChar [])
+Lemma serve_wedge_witness f :
+  In Wedged (serve_may f [[mkinv HHistory (mkenv [str "q1"] false [] true true []) (TChar [])
      [mkrd [TStart (mkname [] (str "message")) []; TStart (mkname (str "urn:xmpp:mam:2") (str "result")) [at_ (str "queryid") (str "q1")]] TmEOF]]]).
 Proof. vm_compute. left. reflexivity. Qed.
+
+(* ---- the facts of this tree ---- *)
+
+Lemma listener_table_keys_agree : f_keys_agree gen_facts = true.
+Proof. vm_compute. reflexivity. Qed.
+
+Lemma depart_is_select : f_depart_select gen_facts = true.
+Proof. vm_compute. reflexivity. Qed.
 
 (* ---- the site inventory ---- *)
 
@@ -334,11 +410,16 @@ Definition helper_or_function (c : comp) : bool :=
   | _ => false
   end.
 
-Lemma helpers_safe c e start rs :
+Lemma helpers_safe f c e start rs :
   helper_or_function c = true ->
-  mem CPanic (run_comp c e start rs) = false /\ mem CBlocked (run_comp c e start rs) = false.
+  mem CPanic (run_comp f c e start rs) = false /\ mem CBlocked (run_comp f c e start rs) = false.
 Proof.
-  intro H. apply run_comp_safe. destruct c; try discriminate; reflexivity.
+  intro H. destruct c; try discriminate; cbn [run_comp];
+    first [ apply safe_returns | apply safe_ok
+          | apply unmarshal_iq_safe | apply ping_send_safe
+          | apply upload_slot_safe | apply items_pages_safe | apply iter_decoding_safe | apply pubsub_fetch_safe
+          | apply bookmarks_fetch_safe | apply commands_execute_safe | apply iter_plain_safe
+          | apply carbons_unwrap_safe | apply forward_unwrap_safe ].
 Qed.
 
 Lemma np_unmarshal_iq vnil e r : mem CPanic (unmarshal_iq vnil e r) = false.
@@ -379,37 +460,61 @@ Proof. apply receipts_handle_safe. Qed.
 Lemma receipts_witness_returns : receipts_handle receipts_witness = returns.
 Proof. vm_compute. reflexivity. Qed.
 
-Lemma nw_ibb_partial e start rs :
-  mem CPanic (run_comp HIbbIQ e start rs) = false /\
-  (e_ready e = true -> mem CBlocked (run_comp HIbbIQ e start rs) = false).
+Lemma nw_ibb_partial f e start :
+  f_keys_agree f = true ->
+  mem CPanic (ibb_iq f e start) = false /\
+  (listener_served f e = true -> mem CBlocked (ibb_iq f e start) = false).
 Proof.
-  split; [apply ibb_iq_no_panic|]. intro H. apply (ibb_iq_ready e start H).
+  intro Hk. split; [apply ibb_iq_no_panic; exact Hk|]. intro H. apply (ibb_iq_served f e start Hk H).
 Qed.
+
+Lemma np_this_tree c e start rs : mem CPanic (run_comp gen_facts c e start rs) = false.
+Proof. apply run_comp_no_panic. exact listener_table_keys_agree. Qed.
+
+Lemma serve_never_panics_this_tree script : ~ In Panicked (serve_may gen_facts script).
+Proof. apply serve_never_panics. exact listener_table_keys_agree. Qed.
+
+(* without the table fact the statement is false *)
+Lemma no_panic_needs_keys f : f_keys_agree f = false ->
+  exists e start, mem CPanic (run_comp f HIbbIQ e start []) = true.
+Proof. intro H. exists stale_env, open_start. cbn [run_comp]. apply ibb_key_mismatch_panics. exact H. Qed.
 
 (* the unconditional no-wedge statement, and why it cannot hold as such *)
 Definition no_wedge_statement : Prop :=
-  forall c e start rs, mem CBlocked (run_comp c e start rs) = false.
+  forall f c e start rs, mem CBlocked (run_comp f c e start rs) = false.
 
 Lemma no_wedge_statement_refuted : ~ no_wedge_statement.
 Proof.
   intro H.
-  specialize (H HHistory (mkenv [str "q1"] false [] true) (TChar [])
+  specialize (H gen_facts HHistory (mkenv [str "q1"] false [] true true []) (TChar [])
     [mkrd [TStart (mkname [] (str "message")) []; TStart (mkname (str "urn:xmpp:mam:2") (str "result")) [at_ (str "queryid") (str "q1")]] TmEOF]).
   vm_compute in H. discriminate.
 Qed.
 
-Lemma no_wedge_partial c e start rs :
-  mem CBlocked (run_comp c e start rs) = true -> e_ready e = false /\ (c = HHistory \/ c = HIbbIQ).
+Lemma no_wedge_partial f c e start rs :
+  mem CBlocked (run_comp f c e start rs) = true ->
+  (c = HHistory /\ e_ready e = false) \/ (c = HIbbIQ /\ listener_served f e = false) \/
+  (c = HMucPres /\ f_depart_select f = false).
 Proof.
   intro H.
-  assert (Hc : c = HHistory \/ c = HIbbIQ \/ (c <> HHistory /\ c <> HIbbIQ)).
-  { destruct c; auto; right; right; split; discriminate. }
-  destruct Hc as [->|[->|[H1 H2]]].
-  - split; [|auto]. destruct (e_ready e) eqn:Hr; [|reflexivity].
-    pose proof (run_comp_safe HHistory e start rs Hr) as [_ Hb]. congruence.
-  - split; [|auto]. destruct (e_ready e) eqn:Hr; [|reflexivity].
-    pose proof (run_comp_safe HIbbIQ e start rs Hr) as [_ Hb]. congruence.
-  - exfalso. destruct c; try congruence;
-      match type of H with mem CBlocked (run_comp ?c0 _ _ _) = true =>
-        pose proof (run_comp_safe c0 e start rs eq_refl) as [_ Hb]; congruence end.
+  destruct c; cbn [run_comp] in H;
+    try (exfalso;
+         first [ (pose proof safe_returns as [_ Hb]; congruence) | (pose proof safe_ok as [_ Hb]; congruence)
+               | (pose proof (receipts_handle_safe (first_rd rs)) as [_ Hb]; congruence)
+               | (pose proof (carbons_handle_safe (first_rd rs)) as [_ Hb]; congruence)
+               | (pose proof (blocklist_handle_safe start (first_rd rs)) as [_ Hb]; congruence)
+               | (pose proof (unmarshal_iq_safe vnil e (first_rd rs)) as [_ Hb]; congruence)
+               | (pose proof (ping_send_safe e (first_rd rs)) as [_ Hb]; congruence)
+               | (pose proof (upload_slot_safe e (first_rd rs)) as [_ Hb]; congruence)
+               | (pose proof (items_pages_safe rs e) as [_ Hb]; congruence)
+               | (pose proof (iter_decoding_safe e (first_rd rs)) as [_ Hb]; congruence)
+               | (pose proof (pubsub_fetch_safe e (first_rd rs)) as [_ Hb]; congruence)
+               | (pose proof (bookmarks_fetch_safe e (first_rd rs)) as [_ Hb]; congruence)
+               | (pose proof (commands_execute_safe e (first_rd rs)) as [_ Hb]; congruence)
+               | (pose proof (iter_plain_safe e (first_rd rs)) as [_ Hb]; congruence)
+               | (pose proof (carbons_unwrap_safe (r_toks (first_rd rs))) as [_ Hb]; congruence)
+               | (pose proof (forward_unwrap_safe (r_toks (first_rd rs))) as [_ Hb]; congruence) ]).
+  - left. split; [reflexivity | apply (history_blocked e (first_rd rs) H)].
+  - right. left. split; [reflexivity | apply (ibb_iq_blocked f e start H)].
+  - right. right. split; [reflexivity | apply (muc_presence_blocked f e H)].
 Qed.
